@@ -3,6 +3,7 @@ package rules
 import (
 	"fmt"
 	"go/ast"
+	"go/constant"
 	"go/token"
 	"go/types"
 	"golang.org/x/tools/go/cfg"
@@ -696,6 +697,101 @@ func runR092(c *core.Ctx) {
 		})
 		c.Check(cbCall != nil && v.Before(cbCall, sortCall) && emitAny && emitOK, rel, spec.fn, "keys and buffered values are emitted only in the loop over the sorted entries", fd.Pos(), "",
 			"an entry is emitted outside the loop over the sorted slice or before the sort")
+		// the sort is not optional: on the control flow graph of the function that sorts, every path into a loop over the
+		// buffered entries has executed the sort call, or knows that there are fewer than two entries
+		{
+			body := sortFrame.Body
+			loops := map[ast.Stmt]bool{}
+			core.WalkNoFuncLit(body, func(n ast.Node) bool {
+				switch l := n.(type) {
+				case *ast.RangeStmt:
+					if v.ObjOf(sinf, l.X) == sortedObj {
+						loops[l] = true
+					}
+				case *ast.ForStmt:
+					if l.Cond != nil {
+						ast.Inspect(l.Cond, func(m ast.Node) bool {
+							if id, ok := m.(*ast.Ident); ok && v.ObjOf(sinf, id) == sortedObj {
+								loops[l] = true
+							}
+							return true
+						})
+					}
+				}
+				return true
+			})
+			skipped := token.NoPos
+			if len(loops) > 0 {
+				core.NewFlow(c.M, sinf, body).Run(&core.Automaton{
+					Block: func(st int, b *cfg.Block) int {
+						if loops[b.Stmt] && (b.Kind == cfg.KindRangeBody || b.Kind == cfg.KindForBody) && st == 0 && skipped == token.NoPos {
+							skipped = b.Stmt.Pos()
+						}
+						return st
+					},
+					Node: func(st int, n ast.Node) int {
+						for _, call := range core.CallsIn(n) {
+							if call == sortCall {
+								return 1
+							}
+						}
+						return st
+					},
+					Edge: func(st int, facts []core.Fact) (int, bool) {
+						for _, f := range facts {
+							be, ok := core.Unparen(f.Expr).(*ast.BinaryExpr)
+							if !ok {
+								continue
+							}
+							x, y, op := be.X, be.Y, be.Op
+							if core.ConstOf(sinf, x) != nil {
+								x, y = y, x
+								op = flipOp(op)
+							}
+							call, isCall := core.Unparen(x).(*ast.CallExpr)
+							cv := core.ConstOf(sinf, y)
+							if !isCall || cv == nil || len(call.Args) != 1 || v.ObjOf(sinf, call.Args[0]) != sortedObj {
+								continue
+							}
+							if b, isB := core.ObjOf(sinf, call.Fun).(*types.Builtin); !isB || b.Name() != "len" {
+								continue
+							}
+							k, exact := constant.Int64Val(cv)
+							if !exact {
+								continue
+							}
+							holds := func(n int64) bool {
+								r := false
+								switch op {
+								case token.EQL:
+									r = n == k
+								case token.NEQ:
+									r = n != k
+								case token.LSS:
+									r = n < k
+								case token.LEQ:
+									r = n <= k
+								case token.GTR:
+									r = n > k
+								case token.GEQ:
+									r = n >= k
+								default:
+									return true
+								}
+								return r == f.Val
+							}
+							// the fact excludes every length >= 2
+							if !holds(2) && !holds(3) && !holds(1<<20) {
+								st = 1
+							}
+						}
+						return st, true
+					},
+				})
+			}
+			c.Check(skipped == token.NoPos, rel, spec.fn, "the sort runs on every path that emits two or more entries", sortCall.Pos(), "",
+				"the loop over the buffered entries at "+c.M.Position(skipped)+" can be entered without the sort having run: an \"already sorted\" shortcut decides the order from what the caller happened to write")
+		}
 	}
 }
 
